@@ -104,6 +104,7 @@ CAPTURED = []  # keyword values of the most recent SCSICommand.build_cdb call (h
 
 
 HELD_CDBS = []
+GHOST_RNG = __import__("random").Random("c01ghosts")
 
 
 def run_one(ctx, c, setname, kind, a, do_facade, transports):
@@ -155,7 +156,10 @@ def run_one(ctx, c, setname, kind, a, do_facade, transports):
     ctx.count("held_cdbs_rechecked", len(HELD_CDBS))
     if kind != "huge*" and TICK[0] % 3 == 0:
         try:
-            ghost = harness.construct(c, setname, DO.fresh(a) if c.custom else a)
+            # (other values than this case's: a buffer that is handed to the next command would otherwise be refilled with the
+            # very same bytes)
+            ga = DO.GEN[c.custom](GHOST_RNG)[0] if c.custom else harness.random_args(c, GHOST_RNG, cap=2048)
+            ghost = harness.construct(c, setname, ga)
             HELD_CDBS.append((ghost.cdb, bytes(ghost.cdb), c.name))
             del ghost
             if len(HELD_CDBS) > 12:
